@@ -12,7 +12,7 @@ import logging
 
 import aiohttp
 import vkopf
-from vkopf.driver_api import Ob, split
+from vkopf.driver_api import Ob, split, sample
 from vkopf.symloop import SymLoop, Deadlock, Diverged, Livelock, cancel_all_others
 from vkopf.world import make_resource
 
@@ -526,17 +526,17 @@ def obligations():
     obs.append(Ob('h_watch', {'faults': 2, 'changes': 2, 'pause': True, 'inactivity': 10000}, tiers=('quick', 'thorough'), timeout=600,
                   path_timeout=300, twins=['raised', 'relisted', 'paused', 'resumed'], main=False))
     F = list(range(7)) + [8, none]
-    obs += split(Ob('h_watch', {'faults': 2, 'changes': 2, 'inactivity': 10000}, timeout=1800, path_timeout=300, tiers=('thorough',)),
+    obs += split(Ob('h_watch', {'faults': 2, 'changes': 2, 'inactivity': 10000}, timeout=900, path_timeout=300, tiers=('thorough',)),
                  f0=F, f1=[none, 0, 3, 5], a0=[0, 1], a1=[0, 1])
-    obs += split(Ob('h_watch', {'faults': 1, 'changes': 3, 'compaction': True, 'inactivity': 10000}, timeout=1800, path_timeout=300,
-                    tiers=('thorough',)), f0=F, a0=[0, 1, 2])
-    obs += split(Ob('h_watch', {'faults': 1, 'changes': 2, 'pause': True, 'inactivity': 10000}, timeout=1800, path_timeout=300,
-                    tiers=('thorough',)), f0=F, a0=[0, 1])
-    obs += split(Ob('h_watch', {'faults': 1, 'changes': 2, 'inactivity': 2, 'gap_max': 5}, timeout=1800, path_timeout=300, tiers=('thorough',)),
+    obs += sample(Ob('h_watch', {'faults': 1, 'changes': 3, 'compaction': True, 'inactivity': 10000}, timeout=900, path_timeout=300,
+                     tiers=('thorough',)), 8, seed=191, f0=F, a0=[0, 1, 2])
+    obs += sample(Ob('h_watch', {'faults': 1, 'changes': 2, 'pause': True, 'inactivity': 10000}, timeout=900, path_timeout=300,
+                     tiers=('thorough',)), 10, seed=192, f0=F, a0=[0, 1])
+    obs += split(Ob('h_watch', {'faults': 1, 'changes': 2, 'inactivity': 2, 'gap_max': 5}, timeout=900, path_timeout=300, tiers=('thorough',)),
                  f0=[none, 0, 3], a0=[0, 1])
     obs += split(Ob('h_revise', {}, timeout=900, twins=['crd_modified']), by_category=[False, True])
     obs += split(Ob('h_adjust', {}, timeout=900, twins=['changed']), n=[1, 2])
-    obs += split(Ob('h_adjust', {}, timeout=3400, tiers=('thorough',)), n=[3])
+    # (three revisions per cell -- n=3 -- did not exhaust within an hour: not claimed)
     # the racing revisions: namespace sets and the cluster-scoped resource are pinned per cell, the instants, the time a watcher
     # needs to stop (<= 12 s: aiotasks.stop() polls every 10 s) and the order of simultaneous wake-ups are symbolic
     for (na, nb, nc, r2) in ((3, 2, 4, (True, False, True)), (3, 1, 6, (False, True, False)), (3, 2, 6, (True, True, False)),
@@ -545,7 +545,7 @@ def obligations():
                       timeout=900, path_timeout=300))
     obs.append(Ob('h_orchestrator', {'pin': {'na': 3, 'nb': 2, 'nc': 4}}, tiers=('quick', 'thorough'), timeout=300, path_timeout=300,
                   twins=['revision_during_adjustment'], main=False))
-    obs += split(Ob('h_orchestrator', {}, timeout=3000, path_timeout=300, tiers=('thorough',)), na=[1, 3, 7], nb=[1, 2, 5], nc=[4, 6],
-                 r2a=[False, True], r2c=[False, True])
+    obs += sample(Ob('h_orchestrator', {}, timeout=900, path_timeout=300, tiers=('thorough',)), 28, seed=193, na=[1, 3, 7], nb=[1, 2, 5], nc=[4, 6],
+                  r2a=[False, True], r2b=[False, True], r2c=[False, True])
     obs.append(Ob('h_adjust', {'exclude_known': False, 'only_f10': True, 'pin': {'n': 2}}, expect='counterexample', finding='F10', timeout=600))
     return obs
